@@ -1391,3 +1391,66 @@ var reencProp = h.Define(P, "reencoded", func(t *rapid.T) Case {
 }, run)
 
 func TestReencoded(t *testing.T) { reencProp.Check(t) }
+
+// TestExecutionScaling: the authorization check on well-signed tokens whose policy size x argument size grows to
+// millions of statement evaluations, with everything SATISFIED (so that no early exit cuts the work short) and with one
+// violation at the very end: the check returns - allowed, denied, or a refusal to do that much work - it does not
+// panic. Neither size alone is large; the product is.
+func TestExecutionScaling(t *testing.T) {
+	ctx := &h.Ctx{P: P, T: t}
+	zero, one := val.Int(0), val.Int(1)
+	type shape struct{ k, m int }
+	shapes := []shape{{8, 8}, {64, 4096}, {1100, 4096}, {2100, 2100}, {4096, 1100}}
+	if h.Thorough() {
+		shapes = append(shapes, shape{6000, 6000}, shape{300, 70000})
+	}
+	n := 0
+	for _, sh := range shapes {
+		for _, last := range []val.V{zero, one} {
+			l := val.V{K: "list"}
+			for i := 0; i < sh.m; i++ {
+				l.L = append(l.L, zero)
+			}
+			l.L[len(l.L)-1] = last
+			var inner []pol.Stmt
+			for i := 0; i < sh.k; i++ {
+				inner = append(inner, pol.Stmt{Op: "==", Sel: sel.Sel{{Kind: "id"}}, Lit: &zero})
+			}
+			pols := []pol.Policy{
+				{{Op: "all", Sel: sel.Sel{{Kind: "field", Name: "l"}}, Sub: []pol.Stmt{{Op: "and", Sub: inner}}}},
+				{{Op: "not", Sub: []pol.Stmt{{Op: "any", Sel: sel.Sel{{Kind: "field", Name: "l"}}, Sub: []pol.Stmt{{Op: "or", Sub: append(append([]pol.Stmt{}, inner[:len(inner)/8+1]...), pol.Stmt{Op: "==", Sel: sel.Sel{{Kind: "id"}}, Lit: &one})}}}}}},
+			}
+			for pi, p := range pols {
+				cs := chain.Case{Links: []chain.Link{{Iss: 1, Aud: 2, Sub: 0, Cmd: "/", Nonce: 1, Pol: p, Decoded: true}, {Iss: 0, Aud: 1, Sub: 0, Cmd: "/", Nonce: 2, Decoded: true}},
+					Inv: chain.Inv{Iss: 2, Sub: 0, Aud: -1, Cmd: "/x", NonceLen: 12, Decoded: true, Args: []val.KV{{K: "l", V: l}}}}
+				var b *chain.Built
+				var err error
+				if pn, pv, st := h.Try(func() { b, err = chain.Build(cs) }); pn {
+					ctx.Fail("C09/panic/build/"+panicSite(st), "constructing / sealing / unsealing a chain with a %d-statement policy and a %d-element argument panicked: %v", sh.k, sh.m, pv)
+					return
+				}
+				if err != nil {
+					P.Class("execution-scaling:build-refused")
+					continue
+				}
+				for _, hook := range []bool{false, true} {
+					n++
+					var d chain.Decision
+					if hook {
+						d = chain.DecideIdentityHook(b)
+					} else {
+						d = chain.Decide(b, nil)
+					}
+					if d.Panicked {
+						ctx.Fail("C09/panic/ExecutionAllowed/scaling", "ExecutionAllowed (hook=%v) panicked on well-signed tokens: policy shape %d with %d statements under a quantifier over %d elements (last element %v): %s", hook, pi, sh.k, sh.m, last.I, d.Panic)
+						return
+					}
+					P.Class(fmt.Sprintf("execution-scaling:allowed=%v", d.Allowed))
+				}
+			}
+		}
+	}
+	P.EvalN(n)
+	P.AddDistinct(n)
+	P.SetExtra("execution_scaling_checks", n)
+}
